@@ -50,6 +50,21 @@ theorem geared (ηgb : Rat → Rat) (rated P : Rat) (hP : 0 ≤ P) :
   refine ⟨div_mul_cancel₀ _ hpos.ne', ?_⟩
   rw [le_div_iff₀ hpos]; nlinarith
 
+/-- Either direction of power through the gearbox of a geared main engine: forward power is the formula above; power that flows
+backwards (a PTI that delivers more than the shaft load) arrives at the engine no larger than it left the shaft - for every
+characteristic and every interpolant of the inverse (C06). -/
+theorem geared_bidirectional (ηgb inv : Rat → Rat) (rated P : Rat) :
+    (0 ≤ P → gearedEnginePowerBi ηgb inv rated P = gearedEnginePower ηgb rated P) ∧
+    (P < 0 → |gearedEnginePowerBi ηgb inv rated P| ≤ |P|) := by
+  refine ⟨fun h => ?_, fun h => ?_⟩
+  · simp [gearedEnginePowerBi, gearedEnginePower, inFromOut, fwd, h]
+  · exact (C06.no_energy_created (η := ηgb) (inv := inv) (rated := rated)).2.1 P h
+
+/-- As found (D136), 200 kW going into a 92.4 %-efficient gearbox from the shaft arrived at the engine as 216.5 kW. -/
+theorem geared_reverse_legacy_creates_energy :
+    |gearedEnginePowerReverseLegacy (fun _ => 924 / 1000) 1000 (-200)| > |(-200 : Rat)| := by
+  unfold gearedEnginePowerReverseLegacy effHat; norm_num [load, rabs, clamp]
+
 /-- As found (D35): a 4000 kW gearbox (90 % efficient up to a quarter of its load, 98 % above) behind a 2000 kW engine
 delivering 1000 kW was read at load 1/2 instead of 1/4: the engine power came out 8 % too low. -/
 theorem geared_legacy_wrong_load :
